@@ -414,6 +414,18 @@ func c14CacheLifecycle(c *core.Ctx, r *core.Rand, cwd string) {
 				map[string]any{"registered_path": "plainfile/part.html (plainfile is a regular file)", "expected": wantThrough.Brief(), "observed": got.Brief()})
 		}
 	}
+	// a directory that occupies the name is no file either
+	os.MkdirAll(filepath.Join(dir, "isdir.html"), 0o755)
+	wantDir := core.Run(e, "[registered where a directory stands: {{ n }}]", b)
+	if _, pr := core.ParseCache(e, "[registered where a directory stands: {{ n }}]", filepath.Join(dir, "isdir.html"), 1); pr.OK() {
+		got := core.RunAt(e, "{% include 'isdir.html' %}", filepath.Join(dir, "top.liquid"), 1, b)
+		c.Eval(2)
+		c.Obs("cache_lifecycle_steps", 1)
+		if !got.Same(wantDir) {
+			c.Violate("include|cache-lifecycle|registered-source-not-used-directory|"+resClass(got), "a source registered with ParseTemplateAndCache is used when no such file exists (also when a directory has that name)",
+				map[string]any{"registered_path": "isdir.html (a directory)", "expected": wantDir.Brief(), "observed": got.Brief()})
+		}
+	}
 	// a source registered under an unclean spelling of its path is found under the path include computes
 	if _, pr := core.ParseCache(e, "[unclean {{ n }}]", dir+"/./sub/../uncl.html", 1); pr.OK() {
 		wantU := core.Run(e, "[unclean {{ n }}]", b)
